@@ -157,7 +157,8 @@ func c20ParseTrace(text string) (calls []*c20Call, started bool, all []*c20Call)
 		if j < i || rest[j] != ')' {
 			continue
 		}
-		c := &c20Call{pid: pid, name: rest[:i], args: rest[i+1 : j], ret: strings.TrimSpace(rest[e+3:]), step: -1}
+		c := &c20Call{pid: pid, name: rest[:i], args: strings.TrimSpace(rest[i+1 : j]), // (an '<unfinished ...>' call leaves a blank before the resumed ')')
+			 ret: strings.TrimSpace(rest[e+3:]), step: -1}
 		c.ord = count[pid+"/"+c.name]
 		c.injected = strings.Contains(c.ret, "(INJECTED)")
 		all = append(all, c)
